@@ -1,6 +1,139 @@
+//! dr/build/*.rs: per public Builder method, the opcode it constructs and the
+//! sink it hands the instruction to.  (Full operand-slot descriptors: see
+//! `descriptor`.)
+use crate::common::*;
 use crate::Ctx;
 use serde_json::{json, Value};
+use syn::visit::Visit;
 
-pub fn extract(_cx: &mut Ctx) -> Value {
-    json!({})
+const FILES: &[&str] = &[
+    "rspirv/dr/build/mod.rs",
+    "rspirv/dr/build/autogen_type.rs",
+    "rspirv/dr/build/autogen_constant.rs",
+    "rspirv/dr/build/autogen_annotation.rs",
+    "rspirv/dr/build/autogen_terminator.rs",
+    "rspirv/dr/build/autogen_debug.rs",
+    "rspirv/dr/build/autogen_norm_insts.rs",
+];
+
+#[derive(Default)]
+struct BodyScan {
+    opcodes: Vec<String>,
+    self_calls: Vec<String>,
+    pushes: Vec<String>, // self.module.<field>.push / = Some
+    calls_id: bool,
+}
+
+fn field_chain(e: &syn::Expr) -> Option<Vec<String>> {
+    match e {
+        syn::Expr::Field(f) => {
+            let mut v = field_chain(&f.base)?;
+            match &f.member {
+                syn::Member::Named(i) => v.push(i.to_string()),
+                syn::Member::Unnamed(i) => v.push(i.index.to_string()),
+            }
+            Some(v)
+        }
+        syn::Expr::Path(p) => Some(path_segments(&p.path)),
+        syn::Expr::Index(i) => {
+            let mut v = field_chain(&i.expr)?;
+            v.push("[]".into());
+            Some(v)
+        }
+        syn::Expr::MethodCall(m) => {
+            let mut v = field_chain(&m.receiver)?;
+            v.push(format!("{}()", m.method));
+            Some(v)
+        }
+        syn::Expr::Paren(p) => field_chain(&p.expr),
+        syn::Expr::Reference(r) => field_chain(&r.expr),
+        _ => None,
+    }
+}
+
+impl<'ast> Visit<'ast> for BodyScan {
+    fn visit_expr_call(&mut self, c: &'ast syn::ExprCall) {
+        if let Some(p) = expr_path(&c.func) {
+            if p.len() >= 2 && p[p.len() - 2] == "Instruction" && p[p.len() - 1] == "new" {
+                if let Some(first) = c.args.first() {
+                    if let Some(op) = expr_path(first) {
+                        if op.len() >= 2 && op[op.len() - 2] == "Op" {
+                            self.opcodes.push(last(&op));
+                        }
+                    }
+                }
+            }
+        }
+        syn::visit::visit_expr_call(self, c);
+    }
+    fn visit_expr_method_call(&mut self, m: &'ast syn::ExprMethodCall) {
+        if let Some(ch) = field_chain(&m.receiver) {
+            if ch == vec!["self".to_string()] {
+                let name = m.method.to_string();
+                if name == "id" {
+                    self.calls_id = true;
+                }
+                self.self_calls.push(name);
+            } else if ch.len() >= 3 && ch[0] == "self" && ch[1] == "module" && (m.method == "push" || m.method == "insert") {
+                self.pushes.push(ch[2..].join("."));
+            }
+        }
+        syn::visit::visit_expr_method_call(self, m);
+    }
+    fn visit_expr_assign(&mut self, a: &'ast syn::ExprAssign) {
+        if let Some(ch) = field_chain(&a.left) {
+            if ch.len() >= 3 && ch[0] == "self" && ch[1] == "module" {
+                self.pushes.push(format!("{}=", ch[2..].join(".")));
+            }
+        }
+        syn::visit::visit_expr_assign(self, a);
+    }
+}
+
+pub fn extract(cx: &mut Ctx) -> Value {
+    let mut methods = vec![];
+    for rel in FILES {
+        let file = match cx.parse(rel) {
+            Some(f) => f,
+            None => continue,
+        };
+        for item in &file.items {
+            if let syn::Item::Impl(imp) = item {
+                if imp.trait_.is_some() || tokens_string(&imp.self_ty).trim() != "Builder" {
+                    continue;
+                }
+                for it in &imp.items {
+                    if let syn::ImplItem::Fn(f) = it {
+                        let mut scan = BodyScan::default();
+                        scan.visit_block(&f.block);
+                        let public = matches!(f.vis, syn::Visibility::Public(_));
+                        let params: Vec<Value> = f
+                            .sig
+                            .inputs
+                            .iter()
+                            .filter_map(|a| match a {
+                                syn::FnArg::Typed(t) => Some(json!([
+                                    tokens_string(&t.pat).trim(),
+                                    tokens_string(&t.ty).trim()
+                                ])),
+                                _ => None,
+                            })
+                            .collect();
+                        methods.push(json!({
+                            "file": rel,
+                            "name": f.sig.ident.to_string(),
+                            "public": public,
+                            "params": params,
+                            "ret": match &f.sig.output { syn::ReturnType::Default => "".to_string(), syn::ReturnType::Type(_, t) => tokens_string(t).trim().to_string() },
+                            "opcodes": scan.opcodes,
+                            "self_calls": scan.self_calls,
+                            "pushes": scan.pushes,
+                            "fingerprint": fingerprint(&f.block),
+                        }));
+                    }
+                }
+            }
+        }
+    }
+    json!({"methods": methods})
 }
